@@ -58,6 +58,8 @@ class RecLine:
         self.line, self.callback, self.started = line, callback, False
         RecLine.made.append(self)
     def start(self): self.started = True
+    def is_alive(self): return False          # never started: nothing to wait for
+    def join(self, timeout=None): pass
 
 def capture(mp, items):
     """drive the real Multiprocessor.filter up to its first wait and return the captured parts"""
@@ -95,9 +97,9 @@ class F:
         if isinstance(item, tuple): item = item[0]           # items are fresh (i, 'iii') tuples, see stream()
         self.seen.append(item)
         F.LOG.append((F.WHO(), item))
-        if self.bad is not None and item == self.bad:
+        if self.bad is not None and (item in self.bad if isinstance(self.bad, list) else item == self.bad):
             from coba.exceptions import CobaException
-            raise {'ValueError':ValueError,'KeyError':KeyError,'CobaException':CobaException,'EOFError':EOFError,'AssertionError':AssertionError,'BrokenPipeError':BrokenPipeError,'AttributeError':AttributeError}[self.exc](f"boom {item}")
+            raise {'ValueError':ValueError,'KeyError':KeyError,'CobaException':CobaException,'EOFError':EOFError,'AssertionError':AssertionError,'BrokenPipeError':BrokenPipeError,'StopIteration':StopIteration,'AttributeError':AttributeError}[self.exc](f"boom {item}")
         if self.kind == 'one': return item*10
         if self.kind == 'two': return iter([item*10, item*10+1])
         if self.kind == 'odd_none': return iter([] if item % 2 else [item*10])
@@ -269,6 +271,9 @@ def sched_params(tier):
     # three workers with a filter failing on the first item; the read-wait hand-shake; a filter raising AttributeError (which ProcessLine.run inspects)
     P += [dict(n=3, m=0, items=3, kind='one', bad=0, abandon=None, delays=dl), dict(n=3, m=1, items=2, kind='one', bad=0, abandon=None, delays=dl),
           dict(n=2, m=0, items=2, kind='one', bad=None, abandon=None, delays=dl, rw=True), dict(n=2, m=1, items=3, kind='two', bad=None, abandon=None, delays=dl, rw=True), dict(n=3, m=1, items=3, kind='one', bad=1, abandon=None, delays=dl, rw=True),
+          # a filter raising StopIteration (e.g. next() on an empty iterator) must not read as a normal end of the stream; every worker lineage dying while the loader is parked on the full input queue
+          dict(n=2, m=0, items=3, kind='one', bad=1, abandon=None, delays=dl, exc='StopIteration'), dict(n=1, m=1, items=3, kind='one', bad=1, abandon=None, delays=dl, exc='StopIteration'),
+          dict(n=1, m=1, items=6, kind='one', bad=0, abandon=None, delays=dl), dict(n=2, m=1, items=8, kind='one', bad=[0,1], abandon=None, delays=dl),
           dict(n=2, m=0, items=2, kind='one', bad=1, abandon=None, delays=dl, exc='AttributeError'), dict(n=2, m=1, items=2, kind='one', bad=0, abandon=None, delays=dl, exc='KeyError')]
     if tier != 'quick':
         P += [dict(n=2, m=1, items=3, kind='one', bad=None, abandon=None, delays=3), dict(n=2, m=0, items=3, kind='one', bad=1, abandon=None, delays=3),
@@ -328,9 +333,10 @@ def schedules(sym, n, m, items, kind, bad, abandon, delays, rw=False, exc='Value
     errs = [(a.name, a.error) for a in sched.actors if a.error is not None]
     sym.check(not errs, f"participant failed: {errs[:1]}")
     out, err = res['out'], res['err']
-    exp_all = [o for i in range(items) if i != bad for o in f.expected(i)]
+    exp_all = [o for i in range(items) if i not in (bad if isinstance(bad, list) else [bad]) for o in f.expected(i)]
     if bad is not None:
-        sym.check(err is not None and 'boom' in str(err) and type(err).__name__ == exc, f"error: the filter raised {exc}('boom {bad}') but the call ended with err={err!r} and outputs {out}")
+        if exc == 'StopIteration': sym.check(err is not None, f"error: the filter raised StopIteration on item {bad} but the call ended normally with outputs {out} (the item's output is silently missing)")
+        else: sym.check(err is not None and 'boom' in str(err) and type(err).__name__ == exc, f"error: the filter raised {exc}('boom {bad}') but the call ended with err={err!r} and outputs {out}")
         cnt = collections.Counter(out); ce = collections.Counter(exp_all)
         sym.check(all(cnt[k] <= ce[k] for k in cnt), f"duplicate: outputs {out} contain values not produced (or produced twice)")
     elif abandon is not None:
